@@ -130,7 +130,7 @@ Definition u_pysem_obj_mut (a : val) : val :=
     end
   | _ => bad
   end.
-(* the first interpreter on the same objects (it writes a receiver back only when it is a local NAME) *)
+(* the first interpreter on the same objects *)
 Definition u_pysem_obj (a : val) : val :=
   match a with
   | Val.VL [Val.VS name; Val.VL args] =>
